@@ -30,13 +30,20 @@ pub type Map = HashMap<Key<'static>, Value>;
 #[cfg(feature = "preserve_order")]
 pub type Map = indexmap::IndexMap<Key<'static>, Value>;
 
-#[inline]
-pub(crate) fn format_map(map: &Map, f: &mut impl std::io::Write) -> std::io::Result<()> {
-    let mut key_val: Box<_> = map.iter().collect();
-    // Keys are sorted to have deterministic output if preserve_order is not used
+/// The entries of a map in the order templates get to see them (printing, `for`, `keys`, `values`, `pairs`).
+/// Keys are sorted to have deterministic output if preserve_order is not used: a `HashMap` built while
+/// rendering would otherwise be visited in a different order on every render.
+pub(crate) fn ordered_entries(map: &Map) -> Vec<(&Key<'static>, &Value)> {
+    let mut key_val: Vec<_> = map.iter().collect();
     if cfg!(not(feature = "preserve_order")) {
         key_val.sort_by_key(|elem| elem.0);
     }
+    key_val
+}
+
+#[inline]
+pub(crate) fn format_map(map: &Map, f: &mut impl std::io::Write) -> std::io::Result<()> {
+    let key_val = ordered_entries(map);
     f.write_all(b"{")?;
     for (idx, (key, value)) in key_val.iter().enumerate() {
         if idx > 0 {
